@@ -242,6 +242,15 @@ static bool end_dchunk(zckCtx *zck, zckComp *comp, const bool use_dict,
                         ZSTD_getErrorName(retval));
         goto decomp_error_2;
     }
+    /* The whole buffer is handed on below: it must all have been produced by
+     * the decompressor */
+    if(retval != fd_size) {
+        set_fatal_error(zck, "Chunk decompressed to %llu bytes instead of the "
+                        "%llu bytes the index announces",
+                        (long long unsigned) retval,
+                        (long long unsigned) fd_size);
+        goto decomp_error_2;
+    }
     if(!comp_add_to_dc(zck, comp, dst, fd_size))
         goto decomp_error_2;
     free(dst);
